@@ -511,3 +511,109 @@ func genPeriodic(r *rand.Rand, w Window) []Pt {
 	}
 	return ring
 }
+
+// genRectilinear: an axis-aligned (rectilinear) shell — a histogram over pixel-aligned columns — with an optional
+// rectangular hole whose sides lie on the same column lines (hole vertices exactly below vertical shell edges,
+// edges along pixel borders: the degenerate cases of ray casting and of the half-open pixel rule).
+func genRectilinear(r *rand.Rand, w Window) ([][]Pt, bool) {
+	step := w.G.Res / w.Unit // lattice steps per pixel
+	n := w.N()
+	if n < 6*step {
+		return nil, false
+	}
+	cols := 3 + r.Intn(4)
+	xs := []int64{r.Int63n(step + 1)}
+	for i := 0; i < cols; i++ {
+		nx := xs[len(xs)-1] + step*(1+r.Int63n(2)) + r.Int63n(2)*step/2
+		if nx > n {
+			break
+		}
+		xs = append(xs, nx)
+	}
+	if len(xs) < 4 {
+		return nil, false
+	}
+	base := r.Int63n(step + 1)
+	minTop := base + 3*step
+	if minTop+step > n {
+		return nil, false
+	}
+	tops := make([]int64, len(xs)-1)
+	for i := range tops {
+		tops[i] = minTop + r.Int63n(max64(1, (n-minTop)/step+1))*step
+		if tops[i] > n {
+			tops[i] = n
+		}
+	}
+	var ring []Pt
+	ring = append(ring, w.pt(xs[0], base), w.pt(xs[len(xs)-1], base))
+	for i := len(tops) - 1; i >= 0; i-- {
+		ring = append(ring, w.pt(xs[i+1], tops[i]), w.pt(xs[i], tops[i]))
+	}
+	// drop duplicate consecutive points (equal tops)
+	clean := ring[:0:0]
+	for _, p := range ring {
+		if len(clean) > 0 && clean[len(clean)-1] == p {
+			continue
+		}
+		clean = append(clean, p)
+	}
+	// remove collinear middle points
+	var shell []Pt
+	for i, p := range clean {
+		a, b := clean[(i+len(clean)-1)%len(clean)], clean[(i+1)%len(clean)]
+		if orient(a, p, b) == 0 {
+			continue
+		}
+		shell = append(shell, p)
+	}
+	if !ringSimple(shell) {
+		return nil, false
+	}
+	poly := [][]Pt{shell}
+	if r.Intn(3) != 0 && len(xs) >= 4 {
+		i := 1 + r.Intn(len(xs)-3)
+		j := i + 1 + r.Intn(len(xs)-i-2)
+		y0 := base + step/2 + r.Int63n(step)
+		y1 := y0 + step/2 + r.Int63n(step)
+		hole := []Pt{w.pt(xs[i], y0), w.pt(xs[i], y1), w.pt(xs[j], y1), w.pt(xs[j], y0)}
+		cand := [][]Pt{shell, hole}
+		if validPolygon(cand) {
+			poly = cand
+		}
+	}
+	return poly, validPolygon(poly)
+}
+
+// deepRealCase: a valid polygon of a few pixels on a REAL grid at a deep tile matrix far from the origin
+// (WebMercatorQuad ids 17-20 around New Zealand / Western Europe): float cancellation territory.
+func deepRealCase(r *rand.Rand) (*Grid, [][]Pt, int, bool) {
+	id := []int{17, 18, 19, 20}[r.Intn(4)]
+	g, err := embeddedGrid("WebMercatorQuad", id)
+	if err != nil || g.Deep > 32 {
+		return nil, nil, 0, false
+	}
+	ax, ay := int64(194600000000000000), int64(90000000000000000)
+	if r.Intn(3) == 0 {
+		ax, ay = 6000000000000000, 68000000000000000
+	}
+	px := (ax-g.Ext[0])/g.Res + r.Int63n(1000)
+	py := (ay-g.Ext[1])/g.Res + r.Int63n(1000)
+	w := Window{G: g, X0: g.Ext[0] + px*g.Res, Y0: g.Ext[1] + py*g.Res, W: 3 + r.Int63n(6), Unit: max64(1, g.Res/4)}
+	for try := 0; try < 20; try++ {
+		poly, _ := genValidPolygon(r, w)
+		ok := true
+		for _, ring := range poly {
+			for k := range ring {
+				x, ok1 := fixRoundTrip(ring[k][0])
+				y, ok2 := fixRoundTrip(ring[k][1])
+				ring[k] = Pt{x, y}
+				ok = ok && ok1 && ok2
+			}
+		}
+		if ok && validPolygon(poly) && g.inGrid(poly) {
+			return g, poly, id, true
+		}
+	}
+	return nil, nil, 0, false
+}
